@@ -1,4 +1,4 @@
 CONSTANTS S = 4  Stride = 16  GroupMax = 14  MaxRun = 12
 SPECIFICATION Spec
-INVARIANTS EmitStats ProjectionExact C07_Deterministic C07_RingDirection C07_ReverseFlag
+INVARIANTS EmitStats ProjectionExact C07_Deterministic C07_InputUntouched C07_RingDirection C07_ReverseFlag
 CHECK_DEADLOCK FALSE
